@@ -47,28 +47,33 @@ func genFin(r *rand.Rand) string {
 // handlers themselves (routers, proxies, models calling models): incoming metadata of their own request
 // (also under the keys the scripts use for outgoing / header metadata), a peer, values, a deadline.
 func genCtx(r *rand.Rand) string {
-	if r.Intn(5) < 2 {
-		return "-"
-	}
 	var items []string
-	if r.Intn(4) != 0 {
-		var ps []pair
-		for i, n := 0, r.Intn(3); i < n; i++ {
-			ps = append(ps, pair{ctxKeys[r.Intn(len(ctxKeys))], strconv.Itoa(5 + r.Intn(3))})
+	if r.Intn(5) >= 2 {
+		if r.Intn(4) != 0 {
+			var ps []pair
+			for i, n := 0, r.Intn(3); i < n; i++ {
+				ps = append(ps, pair{ctxKeys[r.Intn(len(ctxKeys))], strconv.Itoa(5 + r.Intn(3))})
+			}
+			items = append(items, "I"+mdText(ps))
 		}
-		items = append(items, "I"+mdText(ps))
+		if r.Intn(3) == 0 {
+			items = append(items, "D")
+		}
+		if r.Intn(3) == 0 {
+			items = append(items, "P")
+		}
 	}
 	if r.Intn(3) == 0 {
-		items = append(items, "D")
-	}
-	if r.Intn(3) == 0 {
-		items = append(items, "P")
+		// the caller gives a cause for ending its context (or an ancestor of the call's context has one)
+		items = append(items, causeKinds[r.Intn(len(causeKinds))])
 	}
 	if len(items) == 0 {
 		return "-"
 	}
 	return strings.Join(items, ",")
 }
+
+var causeKinds = []string{"K0", "K1", "K2", "A0", "A1", "A2"}
 
 var ctxKeys = []string{"up", "u", "a"}
 
@@ -375,7 +380,42 @@ func abortTail(r *rand.Rand, cli *[]string) {
 // fixed small cases first: they make the first replay per signature small, and contain the scripts of
 // the two divergences found by the side-by-side probe.
 func basicCases() []scase {
-	return append(mk([][5]string{
+	return append(append(basicScripts(), causeCases()...), append(append(passCases(), ctxCases()...), append(finCases(), viaCases()...)...)...)
+}
+
+// causeCases: every abort script of basicScripts (cancel at each position the scripts have: before anything was sent,
+// with the handler parked in RecvMsg / on its context, Header() reads after the abort) on caller contexts that end
+// WITH A CAUSE — three of the six kinds each (on the call's context / on an ancestor x own error, status error, the
+// other context error wrapped), also through the generated wrappers; one script ended by a deadline with a cause.
+// A real connection reports Canceled / DeadlineExceeded whatever the cause.
+func causeCases() []scase {
+	var out []scase
+	i := 0
+	for _, c := range basicScripts() {
+		if !strings.Contains(c.Cli, "x") {
+			continue
+		}
+		for j := 0; j < 3; j++ {
+			v := c
+			v.Ctx = causeKinds[(i+2*j)%len(causeKinds)]
+			out = append(out, v)
+		}
+		i++
+	}
+	out = append(out, scase{Shape: "sstream", Out: "-", Srv: "R,M1,W", Fin: "OK", Cli: "s2,c,r,d,r", Ctx: "K2"},
+		scase{Shape: "unary", Out: "-", Srv: "R,Ha=1,W", Fin: "OK", Cli: "s1,c,d,r,h", Ctx: "Iup=7,A0"})
+	for vi, v := range viaNames {
+		for si, s := range [][4]string{{"unary", "R,Ha=1,W", "OK", "s1,c,x,r,h"}, {"sstream", "R,M1,W", "OK", "s2,c,r,x,r"}} {
+			if viaOK(v, s[0], s[3]) {
+				out = append(out, scase{Shape: s[0], Out: "-", Srv: s[1], Fin: s[2], Cli: s[3], Ctx: causeKinds[(vi+3*si)%len(causeKinds)], Via: v})
+			}
+		}
+	}
+	return out
+}
+
+func basicScripts() []scase {
+	return mk([][5]string{
 		{"unary", "-", "R,M1", "OK", "s1,c,r,h,t"},
 		{"unary", "u=1", "R,Ha=1,Tb=2,M1", "OK", "s1,c,r,h,t"},
 		{"unary", "-", "R", "E5:e0", "s1,c,r,h,t"},
@@ -420,7 +460,7 @@ func basicCases() []scase {
 		{"unary", "-", "R,Ha=1,W", "OK", "s1,c,x,r,h"},
 		{"unary", "-", "R,W", "OK", "s1,c,x,r,h"},
 		{"unary", "-", "R,Ha=1,W", "OK", "s1,c,d,r,h"},
-	}), append(append(passCases(), ctxCases()...), append(finCases(), viaCases()...)...)...)
+	})
 }
 
 // finCases: every class of error value a handler can return (parseFin), for every call shape, at the first
@@ -532,6 +572,19 @@ func parkedCases() []scase {
 	add("cstream", "R,R,M7,G", "E9:e0", "s1,c,z,r")
 	add("bidi", "R,M1,G", "OK", "s1,r,z,r")
 	add("cstream", "R,R,M7,W", "OK", "s1,c,y,r") // the handler notices the cancel itself and returns it
+	// the same windows on contexts that end with a cause (every kind; deadline scripts: one)
+	n := len(out)
+	for i := 0; i < n; i++ {
+		c := out[i]
+		if c.Fin != "OK" && c.Via == "" {
+			continue
+		}
+		if strings.ContainsAny(c.Cli, "zd") && c.Srv != "R,R,M7,G" {
+			continue
+		}
+		c.Ctx = causeKinds[i%len(causeKinds)]
+		out = append(out, c)
+	}
 	return out
 }
 
